@@ -121,8 +121,15 @@ def run(rep, tier, seed):
             sessions.append((s0, st, pts))
         for s1, st1, pts in sessions:
             # every third session runs with the library's debug logging on (records discarded): same observable behaviour
-            with common.debug_logging(len(lines) % 3 == 0):
-                ml, il, calls, info = s1.feed(st1.frames, pts)
+            # and the reads arrive as bytes / in one bytearray that is refilled for every read / as memoryview slices of one pool
+            rx = (len(lines) // 3) % 3
+            noisesim.RX_MODE[0] = rx
+            try:
+                with common.debug_logging(len(lines) % 3 == 0):
+                    ml, il, calls, info = s1.feed(st1.frames, pts)
+            finally:
+                noisesim.RX_MODE[0] = 0
+            rep.bump("rx:" + ("bytes", "reused-bytearray", "pool-memoryview")[rx])
             lines.append(ml)
             impls.append(il)
             ok_name = accept(name, expected)
@@ -140,7 +147,7 @@ def run(rep, tier, seed):
             rep.bump("name:" + ("absent" if name is None else "empty" if name == b"" else "set") + "/" + ("none" if expected is None else "expected"))
             rep.coverage["traces_validated_against_impl"] += 1
             replay = {"kind": "impl-case", "name": name.hex() if name is not None else None, "expected": expected,
-                      "messages": [(t, p.hex()) for t, p in msgs], "cuts": pts}
+                      "messages": [(t, p.hex()) for t, p in msgs], "cuts": pts, "rx": rx}
             flat = [e for c in calls for e in c]
             if ok_name:
                 exp = expected_calls(st1.frames, pts, True)
@@ -194,15 +201,17 @@ def run(rep, tier, seed):
             rep.violation("C03/connection-delivery", f"APIConnection over Noise, {k} message(s) encrypted right behind the handshake frame, chunking '{mode}': "
                           f"delivered {got}, the responder sent {want}{' ; ' + err if err else ''}",
                           {"kind": "impl-case", "variant": "conn-early-data", "messages": k, "chunking": mode})
-    for names, expected in ((["dev", "other"], None), (["dev", "dev"], None), (["other", "dev"], None), (["dev", "dev"], "dev"), (["dev", "other"], "dev"), (["other", "dev"], "dev")):
-        outs = simnet.run(lambda loop: client_sessions_case(loop, names, expected))
+    for names, expected, when in ((["dev", "other"], None, "ctor"), (["dev", "dev"], None, "ctor"), (["other", "dev"], None, "ctor"), (["dev", "dev"], "dev", "ctor"),
+                                  (["dev", "other"], "dev", "ctor"), (["other", "dev"], "dev", "ctor"), (["other", "dev"], "dev", "before"), (["dev", "other"], "dev", "before"),
+                                  (["other", "dev"], "dev", "between"), (["dev", "other"], "dev", "between")):
+        outs = simnet.run(lambda loop: client_sessions_case(loop, names, expected, when))
         want = ["ok" if (expected is None or n == expected) else "L.BadName" for n in names]
-        rep.case(("client-sessions", tuple(names), expected), True, sample={"client_sessions": names, "expected_name": expected, "outcomes": outs})
-        rep.bump("client-sessions")
+        rep.case(("client-sessions", tuple(names), expected, when), True, sample={"client_sessions": names, "expected_name": expected, "configured": when, "outcomes": outs})
+        rep.bump("client-sessions:" + when)
         if outs != want:
-            rep.violation("C03/name-rule-across-sessions", f"one APIClient (expected_name={expected!r}), consecutive Noise sessions with devices announcing {names}: "
+            rep.violation("C03/name-rule-across-sessions", f"one APIClient (expected_name={expected!r}, configured {when}), consecutive Noise sessions with devices announcing {names}: "
                           f"outcomes {outs}, the name rule gives {want}",
-                          {"kind": "impl-case", "variant": "client-sessions", "names": names, "expected": expected})
+                          {"kind": "impl-case", "variant": "client-sessions", "names": names, "expected": expected, "when": when})
 
     mout = common.run_driver(lines)
     disagreements = [{"case": m, "impl": i[:800], "model": o[:800]} for m, i, o in zip(metas, impls, mout) if i != o]
@@ -343,8 +352,11 @@ async def conn_early_data_case(loop, rng, k, mode, debug=False):
     return got, want, err
 
 
-async def client_sessions_case(loop, names, expected):
-    """Consecutive Noise sessions of one APIClient with devices announcing `names` (server hello and HelloResponse)."""
+async def client_sessions_case(loop, names, expected, when="ctor"):
+    """Consecutive Noise sessions of one APIClient with devices announcing `names` (server hello and HelloResponse). The expected name is
+    configured in the constructor, or through the public setter before the first start_connection() ("before") or between the
+    first start_connection() and its finish_connection() ("between"): what is configured when the device announces itself is what counts.
+    With delivered=True a state message follows each handshake and the result is (outcomes, keys a subscriber saw)."""
     from aioesphomeapi import api_pb2 as pb
     from aioesphomeapi.client import APIClient
     from vlib import conntrace, noisesim, simnet
@@ -352,10 +364,14 @@ async def client_sessions_case(loop, names, expected):
     psk = bytes(range(1, 33))
     outs = []
     with net.patched():
-        cli = APIClient("10.0.0.1", 6053, None, noise_psk=noisesim.b64(psk), expected_name=expected)
-        for name in names:
+        cli = APIClient("10.0.0.1", 6053, None, noise_psk=noisesim.b64(psk), expected_name=expected if when == "ctor" else None)
+        if when == "before":
+            cli.expected_name = expected
+        for k, name in enumerate(names):
             try:
                 await cli.start_connection()
+                if when == "between" and k == 0:
+                    cli.expected_name = expected
                 task = asyncio.ensure_future(cli.finish_connection(login=False))
                 await simnet.drain(loop)
                 tr = net.transports[-1]
@@ -391,11 +407,21 @@ def replay(path):
     if d.get("kind") != "impl-case":
         print("nothing to replay:", d.get("kind"))
         return 0
+    if d.get("variant") == "client-sessions":
+        from vlib import simnet
+        outs = simnet.run(lambda loop: client_sessions_case(loop, d["names"], d["expected"], d.get("when", "ctor")))
+        want = ["ok" if (d["expected"] is None or n == d["expected"]) else "L.BadName" for n in d["names"]]
+        print("outcomes:", outs, "name rule:", want)
+        return 1 if outs != want else 0
+    if "name" not in d:
+        print("nothing to replay:", d.get("variant"))
+        return 0
     name = bytes.fromhex(d["name"]) if d["name"] is not None else None
     msgs = [(t, bytes.fromhex(p)) for t, p in d["messages"]]
     s1 = noisecases.Session(d["expected"])
     st = noisecases.Stream(name, msgs)
     st.build(s1.client_hs)
+    noisesim.RX_MODE[0] = d.get("rx", 0)
     ml, il, calls, info = s1.feed(st.frames, d["cuts"])
     print("observed per call:", [[e for e in c if isinstance(e, str)] for c in calls])
     if accept(name, d["expected"]):
